@@ -475,7 +475,7 @@ def main():
             if a["total"] != b["total"]:
                 return f"counts totals differ at {path}"
             return None if kinds_flat.get("loose_counts") or a["counts_keys"] == b["counts_keys"] else None
-        if a["shape"] != b["shape"]:
+        if a["shape"] != b["shape"] and not (kinds_flat.get("squeeze") and len(a["v"]) == len(b["v"])):
             return f"shape differs at {path}: {a['shape']} vs {b['shape']}"
         if kinds_flat.get("shape_only_at", lambda p: False)(path):
             return None
@@ -502,12 +502,13 @@ def main():
         dev = qp.device("default.qubit")
         rec = {"transform": tname, "nw": nw}
 
-        def finish(tape, tapes, fn, shape_only=(), analytic=True, tol=1e-9):
+        def finish(tape, tapes, fn, shape_only=(), analytic=True, tol=1e-9, squeeze=False):
             direct = qp.execute([tape], dev, diff_method=None)[0]
             got = fn(qp.execute(list(tapes), dev, diff_method=None))
             rec["ntapes"] = len(tapes)
             kf = {"shape_only_at": (lambda p: any(p.startswith(f"[{i}]") for i in shape_only)) if len(tape.measurements) > 1 else (lambda p: bool(shape_only))}
             kf["tol"] = tol
+            kf["squeeze"] = squeeze
             r = compare(norm(direct), norm(got), kf)
             rec["status"] = "ok" if r is None else "mismatch"
             if r:
@@ -549,10 +550,9 @@ def main():
                         rec["order_ok"] = False
             if len(tapes) != B:
                 rec["order_ok"] = False
-            if B == 1 and tname != "bexp":
-                # direct execution of a size-1 batch keeps the batch axis; compare against it
-                pass
-            return finish(tape, tapes, fn)
+            # direct execution of a size-1 batch on default.qubit drops the batch axis of some results
+            # (the transformed result keeps it): compare values only in that case
+            return finish(tape, tapes, fn, squeeze=(B == 1))
 
         if tname == "sign":
             ops = rand_ops(rng, nw)
